@@ -320,3 +320,8 @@ def native(tier, seed):
     from pyvc import nativerun
 
     return nativerun.run("contracts.native_c09:sweep", tier, seed)
+
+
+from . import foundation  # noqa: E402
+
+foundation.register("C09")
